@@ -28,7 +28,7 @@ KF_C12_SmallPrecision(op, x, p, r, why) ==
 \* C17: a JSON number that is first parsed into a serde_json::Value and then converted with from_value reaches
 \* the crate as a binary float (serde_json's Number::deserialize_any tries u64, i64, f64 before handing over
 \* the digits), so a number that is not a 64-bit integer is NOT converted digit for digit: the result is the
-\* exact decimal expansion of the nearest f64 (relative error <= 2^-52), or an error when it overflows f64.
+\* exact decimal expansion of the nearest f64 (relative error <= 2^-52, or one subnormal step), or an error when it overflows f64.
 KF_C17_ValueThroughFloat(form, rawdoc, r) ==
   /\ form = "plain_value"
   /\ LET doc == TrimWs(rawdoc) IN
@@ -37,6 +37,7 @@ KF_C17_ValueThroughFloat(form, rawdoc, r) ==
         IF IsD(r)
         THEN /\ ZSmall(pv.z)
              /\ LET x == WToDec(pv)  y == DecOf(r.d)
-                IN DLe(DMul(DAbs(DSub(y, x)), Mk(1, P2(52), 0)), DAbs(x))
+                IN \/ DLe(DMul(DAbs(DSub(y, x)), Mk(1, P2(52), 0)), DAbs(x))
+                   \/ DLe(DAbs(DSub(y, x)), F64Step)              \* subnormal range: absolute error of one step
         ELSE IsErr(r) /\ pv.d # <<>> /\ (~ZSmall(pv.z) \/ AbsI(Len(pv.d) - ZToInt(pv.z)) > 300)
 =============================================================================
